@@ -172,7 +172,7 @@ def gen_history(rng, tier):
             if c > cur_cap:
                 cur_cap = c
         elif r < 0.83 and not with_iters:
-            ops.append(["reload", rng.choice(["mem", "npz", "npz"])])
+            ops.append(["reload", rng.choice(["mem", "npz", "npz", "pickle", "deepcopy"])])
         elif r < 0.83:
             ops.append(["iter_new"])
             n_iters += 1
@@ -352,15 +352,23 @@ def run_impl(case):
         elif op[0] == "reload":
             # "as_raw_dict / from_raw_dict reproduce an equivalent store": the rest of the history runs on the reproduced store
             # (rebuilt in memory, or after the documented np.savez / np.load round trip); the model just carries on
-            raw = store.as_raw_dict()
-            if op[1] == "npz":
-                import io
-                buf = io.BytesIO()
-                np.savez(buf, **raw)
-                buf.seek(0)
-                with np.load(buf, allow_pickle=True) as z:
-                    raw = {k: z[k] for k in z.files}
-            store = ArrayStore.from_raw_dict(raw)
+            if op[1] in ("pickle", "deepcopy"):
+                # the generic ways of copying an object must reproduce an equivalent store, too
+                import copy
+                import pickle
+                old_store = store
+                store = pickle.loads(pickle.dumps(store)) if op[1] == "pickle" else copy.deepcopy(store)
+                raw = old_store.as_raw_dict()
+            else:
+                raw = store.as_raw_dict()
+                if op[1] == "npz":
+                    import io
+                    buf = io.BytesIO()
+                    np.savez(buf, **raw)
+                    buf.seek(0)
+                    with np.load(buf, allow_pickle=True) as z:
+                        raw = {k: z[k] for k in z.files}
+                store = ArrayStore.from_raw_dict(raw)
             # a second store rebuilt from the SAME raw dict is then modified: the two must be independent
             sib = ArrayStore.from_raw_dict(raw)
             if sib.capacity:
@@ -502,6 +510,10 @@ def oracle(case):
                 store.resize(op[1])
             except ValueError:
                 pass
+        elif op[0] == "reload" and op[1] in ("pickle", "deepcopy"):
+            import copy
+            import pickle
+            store = pickle.loads(pickle.dumps(store)) if op[1] == "pickle" else copy.deepcopy(store)
         elif op[0] == "reload":
             raw = store.as_raw_dict()
             if op[1] == "npz":
